@@ -75,6 +75,10 @@ def step' (spec : Bool) (st : St) : List String → St × String
   -- user completion sent to the ORIGIN channel: the origin record is the owner's own (creator =
   -- owner) and is never completed by a user, whatever the key and the direction; nothing changes
   | ["doneA", _, _] => (st, "err")
+  -- ids are matched exactly: the upper-case spelling of an id names no record
+  | ["doneU", _, _] => (st, "err")
+  | ["cancelAU", _, _] => (st, "err")
+  | ["cancelBU", _, _] => (st, "err")
   | ["rdone", id, k] => doStep spec st (.robotDone id (k = "right")) id
   | ["cancelA", id, sender] =>
     let r := doStep spec st (.cancelA id sender) id
